@@ -242,6 +242,14 @@ int dl_bytes(dlCtx *dl_ctx, char *url, size_t bytes, size_t start,
 
         int fd = zck_get_fd(zck_dl_get_zck(dl));
 
+        /* The library continues reading where it stopped, which is not
+         * necessarily at start: it may have read ahead */
+        off_t resume = lseek(fd, 0, SEEK_CUR);
+        if(resume == -1) {
+            LOG_ERROR("Unable to get position in temporary file: %s\n",
+                      strerror(errno));
+            return 0;
+        }
         if(lseek(fd, *buffer_len, SEEK_SET) == -1) {
             LOG_ERROR("Seek to download location failed: %s\n",
                       strerror(errno));
@@ -262,10 +270,10 @@ int dl_bytes(dlCtx *dl_ctx, char *url, size_t bytes, size_t start,
                 (long long unsigned) *buffer_len
             );
         *buffer_len += start + bytes - *buffer_len;
-        if(lseek(fd, start, SEEK_SET) == -1) {
+        if(lseek(fd, resume, SEEK_SET) == -1) {
             LOG_ERROR(
                 "Seek to byte %llu of temporary file failed: %s\n",
-                (long long unsigned) start,
+                (long long unsigned) resume,
                 strerror(errno)
             );
             return 0;
